@@ -453,7 +453,7 @@ def r8_cfg(body: Text):
 
 
 def r8_attrs_docs(text: Text):
-    text.sub_code('R8', r'#\[(?:derive|allow|inline|doc|non_exhaustive|must_use|pin_project|pin|deprecated|default)[^\]]*\]\s*', '')
+    text.sub_code('R8', r'#\[(?:derive|allow|inline|doc|non_exhaustive|must_use|pin_project|pin|deprecated|default|prost)[^\]]*\]\s*', '')
     # doc comments are not code per mask: remove them by line
     while True:
         m = re.search(r'^[ \t]*///[^\n]*\n', text.t, re.M)
@@ -793,6 +793,35 @@ def r21_ref_const_field_arms(body: Text):
             if n == 0:
                 body.lost.append('R21: no `field: &CONST` arm followed by the catch-all arm of the same variant')
             return n
+
+
+def r27_str_const_match(body: Text):
+    """R27: `match E.as_str() { P1::C => A1, .., _ => D }` whose patterns are paths to `&str` constants becomes
+    `if verif_str_eq(E.as_str(), P1::C) A1 else if .. else D` (a constant pattern is an equality test and arms are tried in
+    order; this Verus build derives `scrutinee == constant` from a matching arm but nothing from a non-matching one)."""
+    n = 0
+    while True:
+        t = body.t
+        code = code_mask(t)
+        hit = None
+        for m in re.finditer(r'\bmatch\s+([\w\.]+\.as_str\(\))\s*\{', t):
+            if not code[m.start()]:
+                continue
+            bo = m.end() - 1
+            be = match_brace(t, code, bo)
+            arms = _split_arms(t, code, bo, be)
+            if len(arms) >= 2 and arms[-1][2] == '_' and all(re.match(r'^[A-Za-z_]\w*(::\w+)+$', a[2]) for a in arms[:-1]):
+                hit = (m, be, arms)
+                break
+        if not hit:
+            if n == 0:
+                body.lost.append('R27: no match over `.as_str()` with constant-path arms and a catch-all')
+            return n
+        m, be, arms = hit
+        scrut = m.group(1)
+        chain = ' else '.join('if verif_str_eq(%s, %s) %s' % (scrut, a[2], a[3]) for a in arms[:-1]) + ' else ' + arms[-1][3]
+        body.edit('R27', m.start(), be, chain, 'string-constant match')
+        n += 1
 
 
 def r23_continue_guard(body: Text):
